@@ -560,3 +560,66 @@ theorem mem_tsmMasks (m : Nat) :
 end
 
 end TelProofs
+
+namespace TelProofs
+open TelSpec
+
+section
+variable (atoms : List String) (h : Nat) (P : TProg)
+variable (hnd : atoms.Nodup) (hP : ∀ r ∈ P, ruleOver atoms r = true)
+include hnd hP
+
+/-- a temporal stable model is false on every atom the program does not mention -/
+theorem tsm_outside_false (T : Trace) (hT : TSM h P T) : ∀ k, k ≤ h → ∀ a, a ∉ atoms → T k a = false := by
+  intro k hk a ha
+  let W : Trace := fun j b => if b ∈ atoms then T j b else false
+  have hle : TraceLe h W T := by
+    intro j _ b hb
+    simp only [W] at hb
+    split at hb
+    · exact hb
+    · cases hb
+  have hag : AgreeOn atoms h W T := by
+    intro j _ b hb; simp [W, hb]
+  have hsat : ∀ r ∈ P, r.sat h W T = true := by
+    intro r hr
+    rw [sat_congr_on atoms h hag (fun _ _ _ _ => rfl) r (hP r hr)]
+    exact hT.1 r hr
+  have := hT.2 W hle hsat k hk a
+  simp only [W, ha, if_false] at this
+  exact this.symm
+
+/-- **completeness of the enumeration**: every consistent temporal stable model is printed (as the mask of its trace) -/
+theorem tsm_enumerated (T : Trace) (hT : TSM h P T) (hc : consistent h atoms T = true) :
+    traceMask atoms h T ∈ tsmMasks h atoms P ∧ TraceEq h (maskTrace atoms (traceMask atoms h T)) T := by
+  let m := traceMask atoms h T
+  have hag : AgreeOn atoms h (maskTrace atoms m) T := maskTrace_traceMask atoms h hnd T
+  have hout := tsm_outside_false atoms h P hnd hP T hT
+  have heq : TraceEq h (maskTrace atoms m) T := by
+    intro k hk a
+    by_cases ha : a ∈ atoms
+    · exact hag k hk a ha
+    · rw [maskTrace_notMem atoms hnd m k ha, hout k hk a ha]
+  have hTSM : TSM h P (maskTrace atoms m) := by
+    constructor
+    · intro r hr
+      rw [sat_congr_on atoms h hag hag r (hP r hr)]
+      exact hT.1 r hr
+    · intro W hle hW
+      have hle' : TraceLe h W T := fun k hk a hw => by rw [← heq k hk a]; exact hle k hk a hw
+      have hW' : ∀ r ∈ P, r.sat h W T = true := by
+        intro r hr
+        rw [← sat_congr_on atoms h (fun _ _ _ _ => rfl) hag r (hP r hr)]
+        exact hW r hr
+      intro k hk a
+      rw [hT.2 W hle' hW' k hk a, heq k hk a]
+  have hcons : consistent h atoms (maskTrace atoms m) = true := by
+    simp only [consistent, allUpTo_iff, List.all_eq_true] at hc ⊢
+    intro k hk a ha
+    rw [heq k hk a, heq k hk (compl a)]
+    exact hc k hk a ha
+  exact ⟨(mem_tsmMasks atoms h P hnd hP m).mpr ⟨bitsNat_lt _ _, hTSM, hcons⟩, heq⟩
+
+end
+
+end TelProofs
